@@ -380,6 +380,21 @@ func init() {
 		P + "vCurProc":    func(it *Interp, a []Value) Value { return int64(it.sch.cur.proc) },
 		P + "vSetProc":    func(it *Interp, a []Value) Value { it.sch.cur.proc = int(a[0].(int64)); return nil },
 		P + "vGoID":       func(it *Interp, a []Value) Value { return int64(it.sch.cur.id) },
+		P + "vLiveGoroutines": func(it *Interp, a []Value) Value { // goroutines of the caller's process still alive (not daemons, not the caller)
+			n := 0
+			it.liveDesc = ""
+			for _, t := range it.sch.threads {
+				if t.done || t.killed || t.daemon || t == it.sch.cur || t.proc != it.sch.cur.proc {
+					continue
+				}
+				n++
+				it.liveDesc += fmt.Sprintf(" [%s blocked on %s at %s]", t.name, t.waitDesc, t.waitPos)
+			}
+			if n > 0 {
+				it.records = append(it.records, rec{"live-goroutines", conc(it.liveDesc)})
+			}
+			return int64(n)
+		},
 		P + "vKillProc": func(it *Interp, a []Value) Value { // every goroutine of the process stops at once; no deferred call runs
 			p := int(a[0].(int64))
 			self := false
